@@ -1,7 +1,7 @@
 """C14 — header-type, message-info and type-info codes (DESIGN §4/C14)."""
 from rules import lib_const, lib_ord
 
-LEVEL = "other"
+LEVEL = "proof"
 
 
 def run(ctx):
